@@ -1,6 +1,6 @@
 (* C07 proofs, part 6: the theorem for the fragment of stage 1 + assignment operators + comma. *)
 From Coq Require Import List NArith Bool Arith Lia.
-From CV Require Import Ast.Defs Ast.Basics Ast.Ctx Ast.Stage1 Ast.Main1 Ast.Stage2.
+From CV Require Import Ast.Defs Ast.Frag Ast.Basics Ast.Ctx Ast.Stage1 Ast.Main1 Ast.Stage2.
 Import ListNotations.
 
 Fixpoint frag2 (e : expr) : bool :=
